@@ -57,7 +57,7 @@ def annotate_cat(text, rng, leaf):
 
     def mark():
         k[0] += 1
-        return '{I%d}' % rng.randint(1, 3)
+        return '{I%d}' % rng.choice((1, 2, 3, 3, 10, 12))
 
     def rec(x):
         if x[0] == 'A':
@@ -65,7 +65,7 @@ def annotate_cat(text, rng, leaf):
         return f'({rec(x[1])}{x[2]}{rec(x[3])})' + mark()
     s = rec(v)
     if leaf:
-        s += rng.choice(('_none', '_I1(I2,_,_,_)', '_I1(I2,I3,_,_)', '_I1'))
+        s += rng.choice(('_none', '_I1(I2,_,_,_)', '_I1(I2,I3,_,_)', '_I1', '_I10(unk,I2,I11,_)'))
     return s
 
 
